@@ -1407,6 +1407,68 @@ func c18OverlapCheckpoints(c *Ctx, cv c18Curve) {
 	c.Hist("overlap:checkpoints:" + cv.name)
 }
 
+// ---------------------------------------------------------------- own encodings / chunk limit
+//
+// Independent of the model: on every curve, what an encoder of the package
+// writes must be accepted by the matching decoder and decode to the value
+// (encode-then-decode identity), and every chunk an encoder writes must be
+// within the chunk-size limit the decoder enforces.
+
+// c18ProbeChunkLimit observes the limit readChunk enforces in the tree under
+// test: a Round1 message whose curve-name length prefix is 2^40 is refused
+// with "... exceeds limit <n>".  0 = could not be observed.
+func c18ProbeChunkLimit() uint64 {
+	b := append([]byte("R1"), make([]byte, 8)...)
+	b = append(b, c18PaddedUvarint(1<<40, 0)...)
+	b = append(b, make([]byte, 64)...)
+	_, err := sha2pc.DecodeRound1(elliptic.P256(), b)
+	if err == nil {
+		return 0
+	}
+	msg := err.Error()
+	i := strings.LastIndex(msg, "limit ")
+	if i < 0 {
+		return 0
+	}
+	var n uint64
+	if _, e := fmt.Sscanf(msg[i+len("limit "):], "%d", &n); e != nil {
+		return 0
+	}
+	return n
+}
+
+// c18OwnEncodings: decode(encode(v)) == v for the five values of a run, and
+// the chunks inside the encodings against the observed limit.
+func c18OwnEncodings(c *Ctx, run *c18Run, limit uint64) {
+	cv := run.cv
+	for _, kind := range []int{c18R1, c18R2, c18R3, c18GS, c18ES} {
+		v := c18Val{kind, run}
+		enc, cls := v.encode()
+		rep := c18Replay{Seed: c.Seed, Curve: cv.name, Kind: c18EncName[kind], A: fmt.Sprintf("%x", run.a), B: fmt.Sprintf("%x", run.b),
+			Seeds: fmt.Sprintf("%d,%d,%d", run.s1, run.s2, run.s3), Bytes: hexHead(enc)}
+		c.Eval(fmt.Sprintf("own|%s|%d|%d", cv.name, kind, run.s1), true)
+		if cls != clsOk {
+			rep.What = fmt.Sprintf("%s fails on a value produced by the protocol rounds on %s", c18EncName[kind], cv.name)
+			c.Fail(fmt.Sprintf("c18:%s:%s:encode-fails", c18EncName[kind], cv.name), rep.What, rep)
+			continue
+		}
+		d := c18Decode(kind, cv, enc)
+		if d.class != clsOk || sxKey(d.obs) != sxKey(v.fields()) {
+			rep.What = fmt.Sprintf("%s rejects (or changes) the %d bytes %s itself wrote on %s: %s",
+				c18KindName[kind], len(enc), c18EncName[kind], cv.name, d.msg)
+			c.Fail(fmt.Sprintf("c18:%s:%s:own-encoding-rejected", c18EncName[kind], cv.name), rep.What, rep)
+		}
+		// chunks the encoder wrote (offset 10: curve-name chunk or session chunk, and the nested name)
+		if limit > 0 && kind != c18R3 && len(enc) > 10 {
+			if n, k := binary.Uvarint(enc[10:]); k > 0 && n > limit {
+				rep.What = fmt.Sprintf("%s writes a chunk of %d bytes on %s, the decoder's readChunk refuses chunks above %d",
+					c18EncName[kind], n, cv.name, limit)
+				c.Fail(fmt.Sprintf("c18:%s:%s:chunk-exceeds-decoder-limit", c18EncName[kind], cv.name), rep.What, rep)
+			}
+		}
+	}
+}
+
 // ---------------------------------------------------------------- runner
 
 func c18Inputs(r *RNG, class int) (a, b [32]byte, name string) {
@@ -1441,11 +1503,12 @@ func c18Inputs(r *RNG, class int) (a, b [32]byte, name string) {
 }
 
 func runC18(c *Ctx) error {
-	curves := c18Curves[:3]
-	if c.Thorough() {
-		curves = c18Curves
-	}
+	// quick: P-224/P-256/P-384 in full, P-521 (slow) with ONE run whose messages
+	// and checkpoints are all encoded/decoded at every round boundary
+	curves := c18Curves
 	nClasses := c.N(4, 6)
+	chunkLimit := c18ProbeChunkLimit()
+	c.Note("chunk limit enforced by readChunk (observed): %d", chunkLimit)
 	nFlip := c.N(12, 150)
 
 	// ---- constants (kind 0): magic strings, field sizes, documented sizes
@@ -1523,7 +1586,11 @@ func runC18(c *Ctx) error {
 	fullR3 := 0
 	for ci, cv := range curves {
 		var runs []*c18Run
+		lite := !c.Thorough() && cv.bl == 66
 		for class := 0; class < nClasses; class++ {
+			if lite && class != 2 {
+				continue // P-521 in quick: the random-input class only
+			}
 			r := c.rng.Fork()
 			a, b, cname := c18Inputs(r, class)
 			s1, s2, s3 := r.U64(), r.U64(), r.U64()
@@ -1564,7 +1631,10 @@ func runC18(c *Ctx) error {
 			}
 			// restarts at every round boundary, either and both parties
 			for pi, plan := range plans {
-				if !c.Thorough() && pi%3 != class%3 {
+				if lite && pi != 7 {
+					continue // P-521 quick: the plan with every message and checkpoint through Encode/Decode
+				}
+				if !lite && !c.Thorough() && pi%3 != class%3 {
 					continue // quick: 3 of the 9 plans per class, all 9 per curve
 				}
 				_, err := c18Protocol(cv, a, b, s1, s2, s3, plan, base)
@@ -1576,6 +1646,7 @@ func runC18(c *Ctx) error {
 					c.Fail("c18:resume:"+plan.String(), rep.What, rep)
 				}
 			}
+			c18OwnEncodings(c, base, chunkLimit)
 			// (b) the run's own encodings
 			for _, k := range []int{c18R1, c18R2, c18GS, c18ES} {
 				c18EmitDecode(c, k, cv, c18Mut{name: "pristine", segs: c18Auto(base.enc[k])}, true)
@@ -1605,7 +1676,7 @@ func runC18(c *Ctx) error {
 		}
 		// (c) mutations of the encodings of runs[2] (random inputs); runs[3]
 		// is "another session", the neighbouring curve is "another curve"
-		fcv := c18Curves[(ci+1)%len(curves)]
+		fcv := c18Curves[(ci+1)%c.N(3, 4)]
 		var foreign *c18Run
 		{
 			r := c.rng.Fork()
